@@ -175,6 +175,13 @@ var ruleAlphabet = []struct{ Tok, Line string }{
 	{"root-docs-dir", "/docs/"},         // anchored AND directory-only: the root docs/ with all below it, not sub/docs/
 	{"root-sub-star-tmp", "/sub/*.tmp"}, // anchored with a glob below a directory
 	{"root-aQc", "/a?c"},                // anchored with a single-character wildcard: root entries only
+	// backslash escapes without any wildcard in the same rule (\c is the literal c, as in filepath.Match):
+	// the regex habit of escaping a dot, and the only way to name a file that starts with '#'
+	{"esc-dotenv", `\.env`},               // basename rule
+	{"esc-secret-key", `secret\.key`},     // basename rule, escape in the middle
+	{"root-esc-pem", `/private\.pem`},     // anchored
+	{"conf-esc-yaml", `conf/local\.yaml`}, // with a directory component
+	{"esc-hash", `\#scratch#`},            // not a comment
 	{"comment", "# comment"},
 	{"blank", ""},
 }
@@ -188,6 +195,9 @@ var probeNames = []string{
 	"docs/a.md", "docs/deep/b.md", "sub/docs/c.md", "other/docs", // directory rule: directories named docs at any depth (anchored: the root one only), not files
 	"abc", "sub/abc", "aéc", "ac", "abbc", "adc/inner.md", "templates/a-c", // ? = exactly one character; matches directories too
 	"sub/x.tmp", "sub/deep/y.tmp", "x.tmp", "other/sub/z.tmp", // structural rule: anchored at the root, * does not cross /
+	".env", "conf/.env", "secret.key", "secretXkey", // escaped dot: a literal dot, at any depth for basename rules
+	"private.pem", "conf/private.pem", "conf/local.yaml", "other/conf/local.yaml", // escaped + anchored / with a directory
+	"#scratch#", "scratch#", // escaped leading '#'
 }
 
 // ruleSetCount: non-empty subsets of size <= 2 of the alphabet.
